@@ -275,6 +275,48 @@ def precompute_code():
     return PointJacobi._maybe_precompute.__code__
 
 
+# ------------------------------------------------------------------ jobs in fresh interpreters (histories)
+class FreshJobs:
+    """Run module-level functions `module.func(arg)` each in a NEW python interpreter (nothing inherited from this process:
+    no library state, no locks of other threads), concurrently; results come back pickled.  A job that fails is a
+    MachineryError (recorders turn library deviations into events themselves)."""
+
+    def __init__(self, wd, module, func, args_list):
+        import sys, pickle, subprocess
+        from .common import VERIF
+        self.jobs = []
+        os.makedirs(wd, exist_ok=True)
+        for i, a in enumerate(args_list):
+            fin, fout = os.path.join(wd, "job_%s_%d.in" % (func, i)), os.path.join(wd, "job_%s_%d.out" % (func, i))
+            with open(fin, "wb") as f:
+                pickle.dump(a, f)
+            code = ("import sys, pickle; sys.path.insert(0, %r); from harness.common import repo_on_path; repo_on_path(); "
+                    "import importlib; m = importlib.import_module(%r); r = getattr(m, %r)(pickle.load(open(%r, 'rb'))); "
+                    "pickle.dump(r, open(%r, 'wb'))" % (VERIF, module, func, fin, fout))
+            p = subprocess.Popen([sys.executable, "-c", code], stdout=subprocess.PIPE, stderr=subprocess.STDOUT, cwd=VERIF)
+            self.jobs.append((p, fout, "%s.%s[%d]" % (module, func, i)))
+
+    def get(self, timeout=2400):
+        import pickle, subprocess
+        out = []
+        for p, fout, name in self.jobs:
+            try:
+                txt = p.communicate(timeout=timeout)[0]
+            except subprocess.TimeoutExpired:
+                p.kill()
+                raise MachineryError("history job %s timed out" % name)
+            if p.returncode != 0 or not os.path.exists(fout):
+                raise MachineryError("history job %s failed:\n%s" % (name, txt.decode(errors="replace")[-3000:]))
+            with open(fout, "rb") as f:
+                out.append(pickle.load(f))
+        return out
+
+    def terminate(self):
+        for p, _, _ in self.jobs:
+            if p.poll() is None:
+                p.kill()
+
+
 # ------------------------------------------------------------------ several trace validations side by side
 def validate_many(jobs, wd, total_shards=16, timeout=1500):
     """jobs: list of (label, module_name, cfg_text, events).  Runs tlc.validate_trace for all jobs concurrently,
